@@ -23,6 +23,9 @@ import itertools
 import json
 import multiprocessing as mp
 import os
+
+for _v in ("OMP_NUM_THREADS", "OPENBLAS_NUM_THREADS", "MKL_NUM_THREADS"):
+    os.environ.setdefault(_v, "1")
 import shutil
 import sys
 import tempfile
@@ -177,9 +180,11 @@ class Engine:
             run.obj.cache_clear()
         except Exception:                                           # noqa
             pass
-        again = self.sweep(run.obj, self.qs)
+        #  (the slow uncached measures are recomputed on every call anyway; the cached ones and
+        #  everything cheap is re-evaluated on the emptied cache)
+        again = self.sweep(run.obj, self.pop)
         nbad = 0
-        for q, a, b in zip(self.qs, got, again):
+        for q, a, b in zip(self.pop, [got[pop_idx[q.label]] for q in self.pop], again):
             out["eval"] += 1
             m = S.deep_diff(a, b)
             if m:
@@ -223,7 +228,7 @@ def engine_for(name, seed):
 def work(task):
     name, seed, hists, quarantine_idx = task
     out = {"eval": 0, "fail": [], "skip": [], "cases": [], "samples": [], "name": name, "t": 0.0}
-    t0 = time.time()
+    t0 = time.process_time()
     try:
         with S.Silence():
             eng = engine_for(name, seed)
@@ -241,7 +246,7 @@ def work(task):
     except Exception as e:                                          # noqa
         out["skip"].append(f"{name}: HARNESS ERROR {type(e).__name__}: {e} :: "
                            + traceback.format_exc()[-600:])
-    out["t"] = time.time() - t0
+    out["t"] = time.process_time() - t0
     return out
 
 
